@@ -15,6 +15,7 @@ import (
 	"os"
 	"path"
 	"runtime"
+	"sort"
 	"strings"
 	"sync"
 	"syscall"
@@ -37,6 +38,9 @@ func report(r *ev.Run, sig, what string, witness any) {
 	n := repSeen[sig]
 	repMu.Unlock()
 	r.Count("violating_cases:"+sig, 1)
+	if len(what) > 3000 {
+		what = what[:3000] + "…"
+	}
 	if n <= 2 {
 		r.Violation(sig, what, witness)
 	}
@@ -155,7 +159,18 @@ func main() {
 	t0 := time.Now()
 	lap := func(name string) { walls[name] = time.Since(t0).Seconds(); t0 = time.Now() }
 	n := r.Pick(1500, 80000)
-	parallel(n, func(i int) { runSeq(r, caseID{Layer: 1, Seed: r.Seed*1_000_003 + int64(i)}) })
+	// same case list as ever, but the cases with large values (much slower under -race) go first
+	order := make([]int, n)
+	for i := range order {
+		order[i] = i
+	}
+	l1seed := func(i int) int64 { return r.Seed*1_000_003 + int64(i) }
+	sort.SliceStable(order, func(a, b int) bool {
+		return sizeClassOf(order[a], r.Thorough()) > sizeClassOf(order[b], r.Thorough())
+	})
+	parallel(n, func(i int) {
+		runSeq(r, caseID{Layer: 1, Seed: l1seed(order[i]), SizeClass: sizeClassOf(order[i], r.Thorough())})
+	})
 	lap("layer1_sequences")
 	nc := r.Pick(2, 12)
 	for i := 0; i < nc; i++ {
